@@ -135,6 +135,14 @@ theorem T.acc_inv (hF : factMultiErrorLocked = true) (side : Side) (k : OpK) :
     rcases ha with ha | ha
     · exact accInv_mono (fun h hh => List.mem_append_left _ hh) (T.acc_inv hF side k t _ _ a ha)
     · exact accInv_mono (fun h hh => List.mem_append_left _ hh) (T.acc_inv hF side k f _ _ a ha)
+  | .hide t, ctx, p => by
+    intro a ha
+    simp only [T.acc] at ha
+    by_cases hk : k = .modify
+    · subst hk
+      simp only [if_true] at ha
+      exact accInv_mono (fun h hh => List.mem_append_left _ hh) (T.acc_inv hF side .modify t _ _ a ha)
+    · simp [hk] at ha
 theorem TL.acc_inv (hF : factMultiErrorLocked = true) (side : Side) (k : OpK) :
     ∀ (l : TL) (ctx : List Held) (p : List Nat) (i : Nat), ∀ a ∈ l.acc side k ctx p i, accInv side k ctx a
   | .nil, _, _, _ => by simp [TL.acc]
@@ -314,6 +322,14 @@ theorem T.acc_owner (side : Side) (k : OpK) : ∀ (t : T) (ctx : List Held) (p :
     rcases ha with ha | ha
     · exact Owner.under_mono (List.prefix_append p [0]) (T.acc_owner side k t _ _ a ha)
     · exact Owner.under_mono (List.prefix_append p [1]) (T.acc_owner side k f _ _ a ha)
+  | .hide t, ctx, p => by
+    intro a ha
+    simp only [T.acc] at ha
+    by_cases hk : k = .modify
+    · subst hk
+      simp only [if_true] at ha
+      exact Owner.under_mono (List.prefix_append p [0]) (T.acc_owner side .modify t _ _ a ha)
+    · simp [hk] at ha
 theorem TL.acc_owner (side : Side) (k : OpK) : ∀ (l : TL) (ctx : List Held) (p : List Nat) (i : Nat),
     ∀ a ∈ l.acc side k ctx p i, a.owner.under p
   | .nil, _, _, _ => by simp [TL.acc]
@@ -336,6 +352,39 @@ theorem branches_disjoint (p : List Nat) (o : Owner) (h0 : o.under (p ++ [0])) (
   | root => exact h0
   | node q => exact key q h0 h1
   | cell q => exact key q h0 h1
+
+/-- Two accesses neither of which belongs to a reset walk: the verifier's own mutex orders them. -/
+theorem pair_excl_noreset (hD : factFieldsDisciplined = true) (side : Side) {k1 k2 : OpK} {c1 c2 : List Held} {a b : Access}
+    (h1 : k1 ≠ .reset) (h2 : k2 ≠ .reset) (ha : accInv side k1 c1 a) (hb : accInv side k2 c2 b)
+    (hl : sameLoc a b = true) (hw : a.write = true ∨ b.write = true) : excl a b = true := by
+  obtain ⟨ho, hty, hfd⟩ := sameLoc_eq hl
+  obtain ⟨_, ha⟩ := ha
+  obtain ⟨_, hb⟩ := hb
+  rcases ha with ⟨⟨q, hq⟩, sa⟩ | ⟨⟨q, hq⟩, ca, ta, fa, hfa, nca, ma, na, wa, ga⟩
+  · rcases hb with ⟨_, sb⟩ | ⟨⟨q', hq'⟩, _⟩
+    · exact excl_of_selfGuarded sa sb ho hw
+    · rw [hq, hq'] at ho; cases ho
+  · rcases hb with ⟨⟨q', hq'⟩, _⟩ | ⟨_, cb, tb, fb, hfb, ncb, mb, nb, wb, gb⟩
+    · rw [hq, hq'] at ho; cases ho
+    · have hok := fieldOk_of hD ta side k1 fa hfa nca ma
+      simp only [fieldOk, Bool.or_eq_true, List.all_eq_true] at hok
+      have hk1 : k1 ∈ allOps := by cases k1 <;> simp [allOps]
+      have hk2 : k2 ∈ allOps := by cases k2 <;> simp [allOps]
+      rw [← hty] at hfb
+      have e2 : fb.name = fa.name := by rw [nb, na, hfd]
+      rcases hok with hg | hr
+      · have g1 : fa.ownGuarded = true := by simpa [nca] using hg k1 hk1 fa hfa
+        have g2 : fb.ownGuarded = true := by simpa [ncb, e2] using hg k2 hk2 fb hfb
+        exact excl_of_selfGuarded (ga g1) (gb g2) ho hw
+      · have r1 : fa.write = false ∨ k1 = .reset := by simpa [nca] using hr k1 hk1 fa hfa
+        have r2 : fb.write = false ∨ k2 = .reset := by simpa [ncb, e2] using hr k2 hk2 fb hfb
+        rcases hw with hw | hw
+        · rcases r1 with r1 | r1
+          · rw [wa, hw] at r1; cases r1
+          · exact (h1 r1).elim
+        · rcases r2 with r2 | r2
+          · rw [wb, hw] at r2; cases r2
+          · exact (h2 r2).elim
 
 /-- The common lock a `fifo.Group` at path `p` provides to everything below it. -/
 theorem groupLock (hG : factGroupExclusiveReset = true) (side : Side) (ctx : OpK → List Held) (p : List Nat) :
@@ -408,6 +457,17 @@ theorem T.covered_pairsOk (hF : factMultiErrorLocked = true) (hD : factFieldsDis
     obtain ⟨L⟩ := groupLock hG side ctx p
     simp only [T.acc] at ha hb
     exact pair_excl hD side _ L (TL.acc_inv hF side k1 ms _ p 0 a ha) (TL.acc_inv hF side k2 ms _ p 0 b hb) hl hw
+  | .hide t, ctx, p, _ => by
+    intro k1 k2 a ha b hb hl hw
+    simp only [T.acc] at ha hb
+    by_cases e1 : k1 = .modify
+    · by_cases e2 : k2 = .modify
+      · subst e1; subst e2
+        simp only [if_true] at ha hb
+        exact pair_excl_noreset hD side (by decide) (by decide) (T.acc_inv hF side .modify t _ _ a ha)
+          (T.acc_inv hF side .modify t _ _ b hb) hl hw
+      · simp [e2] at hb
+    · simp [e1] at ha
   | .filter _ t f, ctx, p, hc => by
     simp only [T.covered, Bool.and_eq_true] at hc
     intro k1 k2 a ha b hb hl hw
